@@ -167,14 +167,15 @@ class TokenTree:
         :param up_to: the token to work back from to the root of the tree.
         """
         if up_to:
-            # End specified, move back to the root
-            out = up_to.get_plaintext_signed()
+            # End specified, move back to the root. The tokens are emitted root first: read in that order no token has
+            # to wait for its parent, so paths longer than the (bounded) waiting area of the reader reload completely.
+            path = [up_to.get_plaintext_signed()]
             next_token = up_to.previous_token_hash
             while next_token in self.elements:
                 token = self.elements[next_token]
-                out += token.get_plaintext_signed()
+                path.append(token.get_plaintext_signed())
                 next_token = token.previous_token_hash
-            return out
+            return b"".join(reversed(path))
         # Do the full tree dump.
         return b"".join(token.get_plaintext_signed() for token in self.elements.values())
 
